@@ -1,0 +1,9 @@
+//go:build verif
+
+package html
+
+// VerifSoftLineBreak exposes EastAsianLineBreaks.softLineBreak to the verification harness
+// (the Unicode-table decision is a parameter of the renderer model).
+func VerifSoftLineBreak(b EastAsianLineBreaks, thisLastRune rune, siblingFirstRune rune) bool {
+	return b.softLineBreak(thisLastRune, siblingFirstRune)
+}
